@@ -7,7 +7,7 @@ from props import poolcommon as pc
 from vlib.core import cz, clist, cbool
 
 MANIFEST = dict(
-    text='Theorems (Coq, all op sequences, unbounded): the LaxBoundedSemaphore methods translated from pool.py on every run equal the model; 0 <= value <= size + shrinks-in-progress for every sequence of acquire/release/grow/shrink/clear; acquire enabled iff value > 0; release is lax. Correspondence on random op sequences against the real class.',
+    text='Theorems (Coq, all op sequences, unbounded): the LaxBoundedSemaphore methods translated from pool.py on every run equal the model; 0 <= value <= size + shrinks-in-progress for every sequence of acquire/release/grow/shrink/clear; acquire enabled iff value > 0; release is lax. Correspondence on random op sequences against the real class. Pool level: the bound is the configured size in every reachable state; a pass gives back one slot per reaped worker; an apply task that cannot be sent gives its slot back (repaired defect D26). Closed crash-free composition: free slots + jobs in flight = bound in every reachable state, all slots back at the end. Refuted with a witness (known finding): the first result of a map job frees a slot no map job took.',
     note='Trusted: Coq kernel, translate/pykernel.py, Lib/PyVal.v (Python int/None semantics), stdlib threading.Semaphore modelled (blocking acquire = Blocked), `with cond:` sections atomic. Pool-level slot conservation is partial (see DESIGN.md 5.10).',
     technique='Coq proof over translator-regenerated kernel + differential correspondence',
     ref='5.10',
